@@ -298,9 +298,12 @@ def r3_callsites(ctx):
             t = e6.strip_upd(t)
             if want_unwrap:
                 u = e6.is_call(t, "unwrap", 1) or e6.is_call(t, "expect")
-                if not u:
+                if u:
+                    t = u[0]
+                elif isinstance(t, tuple) and len(t) == 4 and t[0] == "payload" and t[2] == "Option::Some" and t[3] == 0:
+                    t = t[1]          # `match g { Some(g) => g, None => panic!() }`: unwrap written out
+                else:
                     return None
-                t = u[0]
             if isinstance(t, tuple) and t and t[0] == "idx" and I == t[2]:
                 return e6.root_name(t[1]) or e6.show(t[1], 2)
             return None
